@@ -362,7 +362,20 @@ pub fn random_svg_spec(rng: &mut Rng, size: usize, with_image: bool) -> Spec {
     }
     for _ in 0..rng.below(6) {
         let shape = rng.below(6);
-        let c = if rng.chance(1, 2) { Some(random_colour(rng, true)) } else { None };
+        let mut c = if rng.chance(1, 2) { Some(random_colour(rng, true)) } else { None };
+        // coincidences between options: a layer explicitly coloured with the (current or default) module colour,
+        // with the background colour, or with the colour of an earlier layer
+        if c.is_some() && rng.chance(1, 4) {
+            c = Some(match rng.below(7) {
+                0 => s.module_color.clone().unwrap_or(Colour::Rgb([0, 0, 0])),
+                1 => Colour::Rgb([0, 0, 0]),
+                2 => Colour::Rgba([0, 0, 0, 255]),
+                3 => Colour::Text("#000000".into()),
+                4 => s.background.clone().unwrap_or(Colour::Rgba([255, 255, 255, 255])),
+                5 => Colour::Text("#ffffff".into()),
+                _ => s.layers.iter().rev().find_map(|(_, c)| c.clone()).unwrap_or(Colour::Rgb([0, 0, 0])),
+            });
+        }
         s.layers.push((shape, c));
     }
     if with_image && rng.chance(1, 2) {
@@ -500,7 +513,11 @@ impl Spec {
             for _ in 0..decoys {
                 let d = match &op {
                     ROp::Margin(_) => ROp::Margin(rng.below(20)),
-                    ROp::ModuleColor(_) => ROp::ModuleColor(random_colour(rng, true)),
+                    // a decoy module colour is often a colour some layer is going to get explicitly
+                    ROp::ModuleColor(_) => ROp::ModuleColor(match layers.iter().filter_map(|l| if let ROp::Layer(_, Some(c)) = l { Some(c.clone()) } else { None }).nth(rng.below(3)) {
+                        Some(c) if rng.chance(1, 2) => c,
+                        _ => random_colour(rng, true),
+                    }),
                     ROp::Background(_) => ROp::Background(random_colour(rng, true)),
                     ROp::Image(_) => ROp::Image(random_image_string(rng)),
                     ROp::IbgShape(_) => ROp::IbgShape(rng.below(3)),
